@@ -176,6 +176,12 @@ class ModuleEnv:
         dst_el = leaves(list_get(out, k), base.sort)
         st.define(z3.ForAll([k], z3.Implies(z3.And(0 <= k, k < out.length),
                                                z3.And(*[a == b for a, b in zip(dst_el, src_el)]))))
+        # consequences of the normalisation done by slice.indices (stated, so that no nonlinear reasoning is needed to recover them):
+        # every selected position lies inside the list, and positions move strictly in the direction of the step
+        st.define(z3.ForAll([k], z3.Implies(z3.And(0 <= k, k < out.length), z3.And(0 <= start + k * step, start + k * step < n)),
+                            patterns=[z3.MultiPattern(*[d for d in dst_el[:1]])] if dst_el else []))
+        st.define(z3.ForAll([k], z3.Implies(z3.And(0 <= k, k + 1 < out.length),
+                                            z3.If(step > 0, start + k * step < start + (k + 1) * step, z3.Implies(step < 0, start + k * step > start + (k + 1) * step)))))
         return out
 
     def comprehension(self, node, eng, st):
@@ -189,6 +195,7 @@ class ModuleEnv:
             # cls.method / self.method / Class.method -> contract
             if isinstance(f.value, ast.Name) and f.value.id in ('cls', 'self') and f.value.id in st.env:
                 key = f'{eng.cls_name}.{f.attr}'
+                key = eng.c.get('call_alias', {}).get(key, key)      # the caller names which of the callee's proved contracts it relies on
                 recv = st.env[f.value.id]
                 if key in self.reg and not (isinstance(recv, VRec) and f.attr in recv.fields) and ast.unparse(f) not in eng.c.get('calls', {}):
                     return self.apply_contract(key, node, eng, st, recv=recv if f.value.id == 'self' else None)
@@ -376,6 +383,9 @@ class ModuleEnv:
             return eng.need_int(args[0], st, node)
         if name == 'bool' and len(args) == 1:
             return VBool(eng.truth(args[0], st))
+        if name == 'iter' and len(args) == 1 and isinstance(args[0], VConst) and isinstance(args[0].py, tuple) and args[0].py[0] == 'genresult':
+            n_, g_ = eng.as_sequence(args[0].py[1], st)      # a contracted generator: iterating it walks the list of its yields
+            return VConst(('iterator', n_, g_, z3.IntVal(0)))
         if name == 'iter' and len(args) == 1 and isinstance(args[0], (VList, VSeq, VTuple)):
             n_, g_ = eng.as_sequence(args[0], st)
             return VConst(('iterator', n_, g_, z3.IntVal(0)))      # one-shot iterator: (length, getter, cursor)
@@ -480,6 +490,8 @@ class ModuleEnv:
             eng.assumed_used.add(f'{key} (assumed contract on {c.get("relpath")}:{c.get("qualname")})')
         else:
             eng.callee_used.add(key)
+            if c.get('partly_assumed'):      # a proved contract whose proof does not cover every argument form that call sites may pass
+                eng.assumed_used.add(f'{key} ({c["partly_assumed"]})')
         order = list(c.get('order') or c.get('params', {}).keys())
         if args is None:
             args = [eng.ev(a, st) for a in node.args]
